@@ -1148,6 +1148,13 @@ def FIBER(
 
     A = input.signal
 
+    if beta_2 == 0 and beta_3 == 0:  # no dispersion: loss and self-phase modulation have a closed form, exact for any alpha
+        L_eff = length if alpha == 0 else (1 - np.exp(-alpha * length)) / alpha  # effective length [km]
+        A = A * np.exp(-alpha * length / 2) * np.exp(1j * gamma * np.abs(A) ** 2 * L_eff)
+        output = optical_signal(A, input.noise)
+        output.execution_time = toc()
+        return output
+
     def total_power(A):  # instantaneous power summed over the polarisations present (A is (N,) or (2, N))
         return np.abs(A) ** 2 if A.ndim == 1 else (np.abs(A) ** 2).sum(axis=0)
 
